@@ -67,7 +67,7 @@ class C18(Check):
     stubs = ['simulated disk / file objects handed in through the documented open_obj seam (short reads)', 'transport re-cutting the character stream',
              'final subscriber']
     assumptions = ['strings contain neither \\n nor \\r', 'the header line is written (header=True) and the matching schema, separator and escape char are used for loading']
-    probe_names = ('str_subclass_values', 'schema_is_NamedTuple_class', 'read_back_inside_completion', 'str_spells_other_type', 'zwnbsp_in_str', 'path:mem', 'path:file', 'short_reads', 'file>64KiB', 'negative_float', 'str_ends_with_escape', 'sep_in_str', 'quote_in_str',
+    probe_names = ('path_holds_an_earlier_dump', 'str_subclass_values', 'schema_is_NamedTuple_class', 'read_back_inside_completion', 'str_spells_other_type', 'zwnbsp_in_str', 'path:mem', 'path:file', 'short_reads', 'file>64KiB', 'negative_float', 'str_ends_with_escape', 'sep_in_str', 'quote_in_str',
                    'multi_char_sep', 'blank_edges', 'empty_str', 'cut_inside_line')
     quick_cap = 150000
 
@@ -99,6 +99,8 @@ class C18(Check):
             rows.append(row)
         path = rng.choice(['mem', 'file', 'file'])
         case = {'cols': cols, 'rows': rows, 'sep': sep, 'esc': esc, 'path': path, 'cutseed': rng.randrange(1 << 30)}
+        if path == 'file' and rng.random() < 0.25:
+            case['stale'] = True
         if rng.random() < 0.15:
             # string fields whose values are instances of a subclass of str (a user class, numpy.str_)
             case['strsub'] = rng.choice(['cls', 'np'])
@@ -177,6 +179,14 @@ class C18(Check):
         else:
             disk = SimDisk(short_reads=case.get('reads') or ())
             enc = case.get('encoding')
+            if case.get('stale'):
+                # the path already holds an earlier, longer dump (an output path reused by a second run)
+                old_rows = [X(*[{'int': 7, 'float': 1.5, 'bool': True, 'str': 'old'}[t] for t in cols])] * 3
+                _, t0 = collect(rx.from_(old_rows).pipe(csv.dump_to_file('sim.csv', separator=sep, escapechar=esc, encoding=enc, open_obj=disk.open)))
+                if t0 is None or t0[0] != 'completed' or not disk.files.get('sim.csv'):
+                    out.add('dump_to_file-failed', 'csv', {'terminal': repr(t0), 'step': 'earlier dump'})
+                    return out
+                p['path_holds_an_earlier_dump'] += 1
             if case.get('ack'):
                 t, got, term, still_open = dump_then_load_on_completion(
                     rows, csv.dump_to_file('sim.csv', separator=sep, escapechar=esc, encoding=enc, open_obj=disk.open),
